@@ -188,8 +188,9 @@ static const std::vector<Adm>& admitted(int ndim)
       catch (const LibExit&) { f = nullptr; }
       catch (const std::exception&) { f = nullptr; }
       if (f == nullptr) continue;
-      bool ok = f->hasCovOnRn() && f->getCompatibleSpaceR() &&
-                !((int)f->getMaxNDim() > 0 && ndim > (int)f->getMaxNDim());
+      // accepted = the library builds it in this dimension (ACovFunc::isConsistent makes the constructor throw
+      // otherwise) and it is a Euclidean covariance (sphere-only / spectral-only ones are outside the statement)
+      bool ok = f->hasCovOnRn() && f->getCompatibleSpaceR();
       if (ok)
       {
         Adm a;
@@ -293,7 +294,8 @@ struct SInfo
   Eigen::MatrixXd sill;
   LD poly[3] = {0, 0, 0};                 // a + b h^2 + c h^4 (intrinsic structures)
   LD polyMag = 0;                         // magnitude of the values the polynomial was measured from
-  bool bigScale = false;                  // SPLINE_GC with a scale >= 10 (small-distance guard of the library)
+  std::string variant;                    // regime of the evaluation (see setVariant), part of the failure key
+  std::array<double, 3> scaleLib{{1, 1, 1}}; // scales as reported by the library (geometry / regime only, never the oracle)
 };
 struct Built
 {
@@ -344,7 +346,7 @@ static std::string skey(const char* what, const SInfo& s, int ndim)
 {
   std::string k = std::string(what) + ":" + s.key + ":" + dimTag(ndim);
   if (s.bigParam) k += ":bigparam";
-  if (s.bigScale) k += ":bigscale";
+  k += s.variant;
   return k;
 }
 
@@ -397,7 +399,6 @@ static bool buildModel(const ModelCase& c, Ctx& ctx, Built& B, int onlyStruct = 
       s.param = 1.;
     // lengths, rotation
     for (int i = 0; i < 3; i++) s.len[(size_t)i] = sc.len0 * c.L * ((sc.how == 2) ? 1. : sc.ratio[(size_t)i]);
-    s.bigScale = (s.type == T_SPLINE_GC && std::max({s.len[0], ndim > 1 ? s.len[1] : 0., ndim > 2 ? s.len[2] : 0.}) >= 10.);
     std::vector<double> ang = sc.ang;
     if (ndim == 2) { ang[1] = 0; ang[2] = 0; }
     if (ndim == 1 || sc.how == 2 || s.hasRange == 0) ang = {0, 0, 0};
@@ -456,6 +457,11 @@ static bool buildModel(const ModelCase& c, Ctx& ctx, Built& B, int onlyStruct = 
       ctx.fail(skey("build", s, ndim), "the structure is listed for this dimension but could not be added to a Model");
       return false;
     }
+    if (s.hasRange != 0)
+    {
+      VectorDouble sl = B.model->getCova(before)->getScales();
+      for (int i = 0; i < ndim; i++) s.scaleLib[(size_t)i] = sl[(size_t)i];
+    }
     B.order = std::max(B.order, s.minOrder);
     if (!B.names.empty()) B.names += "+";
     B.names += s.key;
@@ -477,6 +483,57 @@ static LD normDist(const SInfo& s, int ndim, const double* d, const std::array<d
     h2 += (proj / l) * (proj / l);
   }
   return sqrtl(h2);
+}
+
+// Regime of an evaluation, as a key variant, for the structures whose implementation switches behaviour with
+// the normalised distance: BESSELJ beyond the table limit (h > 1e4), MATERN beyond the reach of
+// std::cyl_bessel_k (h > 1e6), SPLINE_GC below its small-distance guard (0 < h < 1e-4 * field).
+// minPosH / maxH: smallest positive and largest normalised distance of the structure in the case.
+static void setVariant(SInfo& s, int ndim, LD minPosH, LD maxH)
+{
+  s.variant.clear();
+  if (s.type == T_BESSELJ && maxH > 1e4L) s.variant = ":far";
+  if (s.type == T_MATERN && maxH > 1e6L) s.variant = ":far";
+  if (s.type == T_SPLINE_GC)
+  {
+    double field = 0;
+    for (int i = 0; i < ndim; i++) field = std::max(field, s.scaleLib[(size_t)i]);
+    if (minPosH > 0 && minPosH < 1.0001e-4L * (LD)field) s.variant = ":small-h-guard";
+  }
+}
+static void setVariantsFromPoints(Built& B, int ndim, const std::vector<std::array<double, 3>>& pts)
+{
+  for (auto& s : B.s)
+  {
+    s.variant.clear();
+    if (s.type != T_BESSELJ && s.type != T_MATERN && s.type != T_SPLINE_GC) continue;
+    LD mn = 0, mx = 0;
+    for (size_t i = 0; i < pts.size(); i++)
+      for (size_t j = i + 1; j < pts.size(); j++)
+      {
+        double d[3] = {pts[j][0] - pts[i][0], pts[j][1] - pts[i][1], pts[j][2] - pts[i][2]};
+        LD h2 = 0;
+        for (int a = 0; a < ndim; a++)
+        {
+          LD proj = 0;
+          for (int b = 0; b < ndim; b++) proj += s.R[a][b] * (LD)d[b];
+          proj /= (LD)s.scaleLib[(size_t)a];
+          h2 += proj * proj;
+        }
+        LD h = sqrtl(h2);
+        mx = std::max(mx, h);
+        if (h > 0 && (mn == 0 || h < mn)) mn = h;
+      }
+    setVariant(s, ndim, mn, mx);
+  }
+}
+// library call which may throw: returns false and the message
+template<class F> static bool guarded(F f, std::string& what)
+{
+  try { f(); return true; }
+  catch (const LibExit&) { throw; }
+  catch (const rc::detail::CaseResult&) { throw; }
+  catch (const std::exception& e) { what = e.what(); return false; }
 }
 
 // the even polynomial added by the library to an intrinsic structure, measured on the basic function
@@ -656,9 +713,12 @@ static void runValue(const ValueCase& c, Ctx& ctx)
     std::string detail;
     oracleValue(B, ndim, d, iv, jv, want, scale, &detail);
     SpacePoint P1(x1, -1, space), P2(x2, -1, space);
-    ctx.at("Model::eval");
-    double got = B.model->eval(P1, P2, iv, jv, nullptr);
-    // the structure to blame in the key: the only one, or the one which disagrees when evaluated alone
+    for (auto& s : B.s)
+    {
+      LD h = normDist(s, ndim, d, s.len);
+      setVariant(s, ndim, h, h);
+    }
+    // the structure to blame in the key: the only one, or the one which disagrees (or throws) when evaluated alone
     auto blame = [&]() -> const SInfo& {
       if (B.s.size() == 1) return B.s[0];
       for (size_t k = 0; k < B.s.size(); k++)
@@ -666,12 +726,22 @@ static void runValue(const ValueCase& c, Ctx& ctx)
         LD h = normDist(B.s[k], ndim, d, B.s[k].len), r;
         rhoPub(B.s[k].type, h, B.s[k].param, r);
         LD full = r + B.s[k].poly[0] + B.s[k].poly[1] * h * h + B.s[k].poly[2] * h * h * h * h;
-        double one = B.model->getCova((int)k)->eval(P1, P2, iv, jv, nullptr);
+        double one = 0;
+        std::string w;
+        if (!guarded([&]() { one = B.model->getCova((int)k)->eval(P1, P2, iv, jv, nullptr); }, w)) return B.s[k];
         LD mag = std::max({(LD)1, fabsl(full), fabsl(B.s[k].poly[0])});
         if (!(fabsl((LD)one - (LD)B.s[k].sill(iv, jv) * full) <= 1e-9L * fabsl((LD)B.s[k].sill(iv, jv)) * mag + 1e-300L)) return B.s[k];
       }
       return B.s[0];
     };
+    ctx.at("Model::eval");
+    double got = 0;
+    std::string thrown;
+    if (!guarded([&]() { got = B.model->eval(P1, P2, iv, jv, nullptr); }, thrown))
+    {
+      ctx.fail(skey("exception", blame(), ndim), "Model::eval throws: " + thrown + ";" + detail);
+      return;
+    }
     if (!std::isfinite(got))
     {
       ctx.fail(skey("nonfinite", blame(), ndim), fmt("Model::eval returns %g; expected %.12Lg;%s", got, want, detail.c_str()));
@@ -846,6 +916,25 @@ static void runRel(const RelCase& c, Ctx& ctx)
     pairPoints(p, c.m, B, x1, x2);
     int iv = p.ivar % nvar, jv = p.jvar % nvar;
     SpacePoint P1(x1, -1, space), P2(x2, -1, space);
+    // regime variants, and exceptions thrown by a structure (keyed by the structure)
+    {
+      double d[3] = {0, 0, 0};
+      for (int j = 0; j < ndim; j++) d[j] = x2[(size_t)j] - x1[(size_t)j];
+      bool threw = false;
+      for (size_t k = 0; k < B.s.size() && !threw; k++)
+      {
+        LD h = normDist(B.s[k], ndim, d, B.s[k].scaleLib);
+        setVariant(B.s[k], ndim, h, h);
+        std::string w;
+        ctx.at("CovAniso::eval");
+        if (!guarded([&]() { B.model->getCova((int)k)->eval(P1, P2, iv, jv, nullptr); }, w))
+        {
+          ctx.fail(skey("exception", B.s[k], ndim), "CovAniso::eval throws: " + w);
+          threw = true;
+        }
+      }
+      if (threw) return;
+    }
     ctx.at("Model::eval");
     double c12 = B.model->eval(P1, P2, iv, jv, nullptr);
     double c21 = B.model->eval(P2, P1, iv, jv, nullptr);
@@ -1069,7 +1158,7 @@ static Eigen::MatrixXd monomials(const std::vector<std::array<double, 3>>& pts, 
 
 struct PsdResult
 {
-  bool ok = true, tested = false, finite = true;
+  bool ok = true, tested = false, finite = true, threw = false;
   double lmin = 0, lmax = 0, normK = 0;
   int n = 0;
   std::string msg;
@@ -1081,7 +1170,14 @@ static PsdResult psdTest(Model& model, Db* db, const std::vector<std::array<doub
   PsdResult r;
   int n = (int)pts.size();
   ctx.at("Model::evalCovMatrixSymmetric");
-  MatrixSquareSymmetric K = model.evalCovMatrixSymmetric(db);
+  MatrixSquareSymmetric K;
+  if (!guarded([&]() { K = model.evalCovMatrixSymmetric(db); }, r.msg))
+  {
+    r.ok = false;
+    r.threw = true;
+    r.msg = "evalCovMatrixSymmetric throws: " + r.msg;
+    return r;
+  }
   int N = n * nvar;
   if (K.getNRows() != N || K.getNCols() != N)
   {
@@ -1182,6 +1278,7 @@ static void runPsd(const PsdCase& c, Ctx& ctx)
   ctx.at("Db::createFromSamples");
   std::unique_ptr<Db> db(Db::createFromSamples(n, ELoadBy::SAMPLE, tab, names, locs, false));
   if (!db) { ctx.inconclusive("db-not-built"); return; }
+  setVariantsFromPoints(B, ndim, pts);
   PsdResult r = psdTest(*B.model, db.get(), pts, ndim, nvar, B.order, ctx, true);
   {
     Hash h;
@@ -1195,7 +1292,8 @@ static void runPsd(const PsdCase& c, Ctx& ctx)
   }
   // blame: the structure which fails alone on the same points (first one), else the sum
   std::string suffix = ":sum:" + dimTag(ndim);
-  std::string what = r.finite ? (r.tested ? "nonpsd" : "matrix") : "nonfinite";
+  auto kind = [](const PsdResult& q) { return q.threw ? "exception" : (q.finite ? (q.tested ? "nonpsd" : "matrix") : "nonfinite"); };
+  std::string what = kind(r);
   if (B.s.size() == 1)
   {
     suffix = skey("", B.s[0], ndim);
@@ -1208,12 +1306,13 @@ static void runPsd(const PsdCase& c, Ctx& ctx)
       Built B1;
       Ctx dummy;
       if (!buildModel(c.m, dummy, B1, (int)k)) continue;
+      setVariantsFromPoints(B1, ndim, pts);
       PsdResult r1 = psdTest(*B1.model, db.get(), pts, ndim, nvar, B.order, dummy, false);
       if (!r1.ok)
       {
         suffix = skey("", B1.s[0], ndim);
         if (!inLiteratureDomain(B1.s[0].type, ndim, B1.s[0].param)) suffix += ":outside-math-domain";
-        what = r1.finite ? (r1.tested ? "nonpsd" : "matrix") : "nonfinite";
+        what = kind(r1);
         r.msg += " [alone: " + r1.msg + "]";
         break;
       }
